@@ -61,7 +61,7 @@ class GroupBCD(BaseSolver):
         n_groups = len(penalty.grp_ptr) - 1
 
         w = np.zeros(n_features + self.fit_intercept) if w_init is None else w_init
-        Xw = np.zeros(n_samples) if w_init is None else Xw_init
+        Xw = np.zeros(n_samples) if Xw_init is None else Xw_init
 
         if len(w) != n_features + self.fit_intercept:
             if self.fit_intercept:
